@@ -2,6 +2,7 @@ package core
 
 import (
 	"go/token"
+	"go/types"
 
 	"golang.org/x/tools/go/ssa"
 )
@@ -93,4 +94,54 @@ func BoolResult(f *ssa.Function, start *ssa.BasicBlock, ri int, env map[ssa.Valu
 		return false, false
 	}
 	return run(start, nil)
+}
+
+// SuccessValue looks through the merge that inlining a multi-return helper creates:
+// when v is a phi whose block also merges an error-typed phi e, exactly one incoming
+// edge can carry a nil e, and v is a zero constant on every other edge, the value v has
+// wherever the error was found nil is the one arriving on that edge. (Uses of v on the
+// failing edges see the zero value; rules that reason about the value handed out on
+// success use this view.)
+func SuccessValue(v ssa.Value) ssa.Value {
+	for depth := 0; depth < 4; depth++ {
+		phi, ok := v.(*ssa.Phi)
+		if !ok {
+			return v
+		}
+		var errPhi *ssa.Phi
+		for _, in := range phi.Block().Instrs {
+			p2, isPhi := in.(*ssa.Phi)
+			if !isPhi {
+				break
+			}
+			if p2 != phi && types.Identical(p2.Type(), types.Universe.Lookup("error").Type()) {
+				errPhi = p2
+			}
+		}
+		if errPhi == nil {
+			return v
+		}
+		success := -1
+		n := 0
+		for i, e := range errPhi.Edges {
+			if ErrState(e, phi.Block().Preds[i], nil) != NonNil {
+				success = i
+				n++
+			}
+		}
+		if n != 1 {
+			return v
+		}
+		for j, e := range phi.Edges {
+			if j == success {
+				continue
+			}
+			k, isK := e.(*ssa.Const)
+			if !isK || !(k.IsNil() || k.Value == nil || k.Value.String() == "0" || k.Value.String() == "false" || k.Value.String() == `""`) {
+				return v
+			}
+		}
+		v = phi.Edges[success]
+	}
+	return v
 }
